@@ -658,11 +658,28 @@ def _document_level(run: Run, vm, rule: str = "R08.6") -> None:
         conds = branch_conditions(cfg, a.id)
         tests = [ast.unparse(t) for t, val in conds if val is True]
         guard_ok = "has_req and value is None" in tests or "value is None and has_req" in tests
+        guard_ok_simple = guard_ok
+        inline_none = False
         if not guard_ok:
             # the same two conditions as nested tests, has_req possibly written out in place
             atoms = [(ast.unparse(t), val) for t, val in atomic_conditions(cfg, a.id)]
             none_atom = ("value is None", True) in atoms or ("value is not None", False) in atoms
+            inline_none = False
+            if not none_atom:
+                # the read written in the test itself: `present_fields.get(field_name) is None`
+                inline_none = ("present_fields.get(field_name) is None", True) in atoms or ("present_fields.get(field_name) is not None", False) in atoms
+                none_atom = inline_none
             req_atom = ("has_req", True) in atoms or any(val is True and txt.startswith("any(") and "isinstance(c, RequiredConstraint)" in txt for txt, val in atoms)
+            if not req_atom:
+                # `<field definition>.is_required`, where that property is `any(isinstance(c, RequiredConstraint) for c in ...)`
+                for txt, val in atoms:
+                    if val is True and txt.endswith(".is_required"):
+                        for m2 in run.project.modules.values():
+                            for q2, f2 in m2.functions.items():
+                                if f2.name == "is_required" and any(ast.unparse(d).endswith("property") for d in f2.node.decorator_list):
+                                    rets = [r.value for r in walk_no_nested(f2.node) if isinstance(r, ast.Return) and r.value is not None]
+                                    if rets and all((isinstance(r, ast.Constant) and r.value is False) or (ast.unparse(r).startswith("any(") and "isinstance(c, RequiredConstraint)" in ast.unparse(r)) for r in rets) and any(not isinstance(r, ast.Constant) for r in rets):
+                                        req_atom = True
             inline_req = not any(txt == "has_req" for txt, _ in atoms) and req_atom
             guard_ok = none_atom and req_atom
         else:
@@ -671,7 +688,7 @@ def _document_level(run: Run, vm, rule: str = "R08.6") -> None:
         kw = {k.arg: k.value for k in call.keywords}
         path_ok = "field_path" in kw and isinstance(kw["field_path"], ast.Name)
         vdefs = [n.value for n in walk_no_nested(vs.node) if isinstance(n, ast.Assign) and any(is_name(t, "value") for t in n.targets)]
-        val_ok = len(vdefs) == 1 and ast.unparse(vdefs[0]) == "present_fields.get(field_name)"
+        val_ok = (len(vdefs) == 1 and ast.unparse(vdefs[0]) == "present_fields.get(field_name)") or (not guard_ok_simple and inline_none)
         hdefs = [n.value for n in walk_no_nested(vs.node) if isinstance(n, ast.Assign) and any(is_name(t, "has_req") for t in n.targets)]
         has_ok = (len(hdefs) == 1 and "isinstance(c, RequiredConstraint)" in ast.unparse(hdefs[0]) and ast.unparse(hdefs[0]).startswith("any(")) or (inline_req and not hdefs)
         ok = guard_ok and path_ok and val_ok and has_ok
